@@ -848,7 +848,17 @@ type badgerBatch struct {
 	// batch together with their previous location, so this can be undone if nothing is written.
 	assignedPtrs []assignedPtr
 
+	// rootExisted is true iff Commit found the root already stored and wrote nothing.
+	rootExisted bool
+
 	mpLock *sync.Mutex
+}
+
+// RootExisted returns true iff Commit found that the root had already been stored by another batch,
+// in which case nothing was written and the caller's in-memory nodes may refer to database locations
+// that differ from those of the stored nodes.
+func (ba *badgerBatch) RootExisted() bool {
+	return ba.rootExisted
 }
 
 // assignedPtr is an in-memory pointer together with its database location before this batch.
@@ -974,6 +984,11 @@ func (ba *badgerBatch) Commit(root node.Root) error {
 			// different batch using different locations, so the caller's in-memory nodes must not
 			// be treated as persisted: undo the assignments and skip the on-commit hooks, leaving
 			// the nodes dirty so they get written by the caller's next commit.
+			//
+			// Locations of the caller's clean nodes may be stale as well (the batch that stored
+			// the root may have moved them, e.g. when a node became the root node), so also tell
+			// the caller that its in-memory nodes do not correspond to what is stored.
+			ba.rootExisted = true
 			if len(ba.assignedPtrs) > 0 {
 				for i := len(ba.assignedPtrs) - 1; i >= 0; i-- {
 					ba.assignedPtrs[i].ptr.DBInternal = ba.assignedPtrs[i].old
